@@ -341,6 +341,18 @@ class Runner:
                     reported += 1
         return reported
 
+    def check_tiling(self, results, prefix, total):
+        """Bookkeeping: the chunks of an indexed domain that were launched cover 0..total-1 without gaps
+        (each chunk's own bounds are computed and enforced by TLC; this only checks that none was left out)."""
+        spans = sorted((r.summary["lo"], r.summary["hi"]) for r in results if r.job.label.startswith(prefix) and r.summary)
+        nxt = 0
+        for lo, hi in spans:
+            if lo != nxt:
+                break
+            nxt = hi + 1
+        if nxt != total:
+            self.machinery.append("chunks of %s cover 0..%d, expected 0..%d" % (prefix, nxt - 1, total - 1))
+
     def finish(self):
         ctx = self.ctx
         ctx.cov["distinct_nontrivial"] = len(self.distinct)
